@@ -493,7 +493,63 @@ func runC06(c *core.Ctx) error {
 	if err := c06Nested(c, reg); err != nil {
 		return err
 	}
+	c06Large(c, reg)
 	return c06Store(c, reg)
+}
+
+// c06Large: blocks of several MiB whose decoding fails at once (a flipped first byte, or an undecodable head in front of
+// the content), so that almost the whole stream is still unread when the codec gives up: the stream does not hash to
+// the link, and that is what must be reported - at every size, through plain readers and through readers that are
+// also io.WriterTo.
+func c06Large(c *core.Ctx, reg multicodec.Registry) {
+	sizes := []int{1 << 20, 5 << 20}
+	if c.Thorough() {
+		sizes = append(sizes, 4<<20-1, 4<<20, 4<<20+1, 9<<20)
+	}
+	for _, size := range sizes {
+		for _, codecCode := range []uint64{0x71, 0x0129} {
+			payload := bytes.Repeat([]byte{0x61}, size)
+			var block []byte
+			if codecCode == 0x71 {
+				block = append([]byte{0x7a, byte(size >> 24), byte(size >> 16), byte(size >> 8), byte(size)}, payload...) // a text string
+			} else {
+				block = append(append([]byte{'"'}, payload...), '"')
+			}
+			sum, _ := mh.Sum(block, mh.SHA2_256, -1)
+			lnk := cidlink.Link{Cid: cid.NewCidV1(codecCode, sum)}
+			bad := append([]byte{}, block...)
+			bad[0] = 0xff
+			for _, plain := range []bool{true, false} {
+				lsys := cidlink.LinkSystemUsingMulticodecRegistry(reg)
+				lsys.StorageReadOpener = func(linking.LinkContext, datamodel.Link) (io.Reader, error) {
+					if plain {
+						return struct{ io.Reader }{bytes.NewReader(bad)}, nil
+					}
+					return bytes.NewReader(bad), nil
+				}
+				for _, fn := range []string{"Load", "Fill"} {
+					var err error
+					_, panicked, pv := core.Catch(func() error {
+						if fn == "Load" {
+							_, err = lsys.Load(linking.LinkContext{}, lnk, basicnode.Prototype.Any)
+						} else {
+							err = lsys.Fill(linking.LinkContext{}, lnk, basicnode.Prototype.Any.NewBuilder())
+						}
+						return nil
+					})
+					caseID := fmt.Sprintf("c06.large %s codec=0x%x size=%d plain-reader=%v first-byte=ff", fn, codecCode, size, plain)
+					c.Count(caseID, true)
+					c.Dist("large-block:" + fn)
+					if panicked {
+						c.Fail("C06/panic", core.Replay{Kind: "oracle", Case: caseID, Impl: fmt.Sprint(pv)})
+					} else if cls := classifyLoadErr(err); cls != "hashMismatch" {
+						c.Fail("C06/mismatch-not-reported", core.Replay{Kind: "oracle", Case: caseID, Impl: cls + " " + fmt.Sprint(err), Expected: "hashMismatch",
+							Detail: "the stream does not hash to the link; a hash mismatch is reported before any decoding error, however much of the stream the codec left unread"})
+					}
+				}
+			}
+		}
+	}
 }
 
 // nestedReader delivers `data` in two halves and, between them, runs `mid` (another load on the same link system).
